@@ -58,7 +58,9 @@ RULE = (
     "complete product: command kind {plain AsyncScript, Scanner, UDSScanner on in-memory transport + fake ECU} x "
     "(exit kind, lifecycle point) {normal return; sys.exit(0|1|3|'text'), ConnectionError, UDSException, RuntimeError, "
     "real SIGINT - each at setup-early/-late, main, teardown-early/-late (early/late = before/after the base class "
-    "step); SIGINT at pre-hook, db-open, db-close, post-hook; database fault at db-open and db-close; lock file cannot "
+    "step); SIGINT at pre-hook, post-hook and at every await of the database set-up (connect, schema query, row insert) and "
+    "completion (complete_run_meta execute / commit, disconnect executor-join / commit / close) - raised right before the real "
+    "await so that the cancellation lands at that await; database fault at connect, complete_run_meta, disconnect commit / close; lock file cannot "
     "be taken (OSError)} x artifacts "
     "dir on/off x database on/off x lock file on/off x hook variant {disabled, ok, pre fails, post fails"
     " [, both fail: thorough]}; combinations whose point does not exist (hook point without hooks, db point without "
@@ -195,25 +197,78 @@ class TracingDB(DBHandler):
         own = self._owner()
         return ST["dbcalls_outer"] if getattr(own, "_c15_role", None) == "outer" else ST["dbcalls"]
 
+    # Every await of the database set-up / completion is its own crash point.  A planned SIGINT is raised right before
+    # the real await, so the cancellation is delivered by asyncio AT that await inside gallia's code (no artificial
+    # suspension point); a planned fault replaces / follows the real call.
+
+    def _seam(self, fn: Any, name: str, fault_after: bool = False) -> Any:
+        owner = self._owner()
+
+        async def wrapped(*a: Any, **kw: Any) -> Any:
+            if _substep(owner, name) == "dbfault":
+                if fault_after:
+                    await fn(*a, **kw)
+                raise aiosqlite.OperationalError(f"c15: injected sqlite failure at {name}")
+            return await fn(*a, **kw)
+
+        return wrapped
+
     async def connect(self) -> None:
         self._calls().append("connect")
+        _substep(self._owner(), "db-open:connect")
         await super().connect()
-        await _point(self._owner(), "db-open")
+
+    async def check_version(self) -> None:
+        _substep(self._owner(), "db-open:schema")
+        await super().check_version()
 
     async def insert_run_meta(self, *a: Any, **kw: Any) -> None:
         self._calls().append("insert_run_meta")
+        _substep(self._owner(), "db-open:insert")
         await super().insert_run_meta(*a, **kw)
 
     async def complete_run_meta(self, *a: Any, **kw: Any) -> None:
         self._calls().append("complete_run_meta")
-        if ST["kind"] == "dbfault" and ST["point"] == "db-close" and getattr(self._owner(), "_c15_role", None) != "outer":
-            ST["fired"] = True
+        if _substep(self._owner(), "db-close:complete-execute") == "dbfault":
             raise aiosqlite.OperationalError("c15: database is locked")
-        await super().complete_run_meta(*a, **kw)
+        conn = self.connection
+        assert conn is not None
+        real_commit = conn.commit
+        conn.commit = self._seam(real_commit, "db-close:complete-commit")  # type: ignore[method-assign]
+        try:
+            await super().complete_run_meta(*a, **kw)
+        finally:
+            conn.commit = real_commit  # type: ignore[method-assign]
 
     async def disconnect(self) -> None:
         self._calls().append("disconnect")
+        conn = self.connection
+        if conn is not None:
+            conn.commit = self._seam(conn.commit, "db-close:disconnect-commit")  # type: ignore[method-assign]
+            conn.close = self._seam(conn.close, "db-close:disconnect-close", fault_after=True)  # type: ignore[method-assign]
+        _substep(self._owner(), "db-close:disconnect-executor")
         await super().disconnect()
+
+
+def _substep(cmd: Any, name: str) -> str | None:
+    """Synchronous crash point in front of a real await.  Returns "dbfault" if the caller has to fail here."""
+    if getattr(cmd, "_c15_role", None) == "outer":
+        ST["reached"].append("outer:" + name)
+        return None
+    ST["reached"].append(name)
+    if ST["point"] != name or ST["fired"]:
+        return None
+    if ST["kind"] == "dbfault":
+        if name == "db-open:connect":
+            return None  # this fault is in the configuration (unusable path)
+        ST["fired"] = True
+        GLOG.info(f"c15 marker: dbfault at {name}")
+        return "dbfault"
+    if ST["kind"] == "sigint":
+        ST["fired"] = True
+        GLOG.info(f"c15 marker: sigint at {name}")
+        signal.raise_signal(signal.SIGINT)
+    return None
 
 
 async def _point(cmd: Any, name: str) -> None:
@@ -300,8 +355,6 @@ class _Lifecycle:
             if Path(ST["zst_path"][i]).parent == self.artifacts_dir and ST["window_open"][i]:  # type: ignore[attr-defined]
                 ST["closed_at_owner_finally"][i] = bool(h.file.closed)
                 ST["window_open"][i] = False
-        if self.db_handler is not None:  # type: ignore[attr-defined]
-            await _point(self, "db-close")
         await super()._db_finish_run_meta()  # type: ignore[misc]
 
     def run_hook(self, variant: HookVariant, exit_code: int | None = None) -> None:
@@ -386,7 +439,7 @@ def build_config(case: dict[str, Any], d: Path) -> Any:
     if case["art"]:
         kw["artifacts_base"] = d / "artifacts"
     if case["db"]:
-        if kind == "dbfault" and point == "db-open":
+        if kind == "dbfault" and point == "db-open:connect":
             (d / "blocker").write_text("not a directory\n")
             kw["db"] = d / "blocker" / "sub" / "run.sqlite"
         else:
@@ -441,7 +494,7 @@ def _child_prepare(case: dict[str, Any], d: Path) -> tuple[Any, dict[str, Any]]:
         del os.environ[k]
     sys.argv = ARGV + [case_label(case).replace(" ", ",")]
     _reset_state(case["kind"], case["point"], case.get("first"))
-    if (case["kind"] == "dbfault" and case["point"] == "db-open") or case["kind"] == "lockfault":
+    if (case["kind"] == "dbfault" and case["point"] == "db-open:connect") or case["kind"] == "lockfault":
         ST["fired"] = True  # the fault is in the configuration
     ST["nest"] = bool(case.get("nest"))
     gbase.DBHandler = TracingDB  # type: ignore[misc]
@@ -527,7 +580,12 @@ def _child(case: dict[str, Any], d: Path) -> None:
                 "db": c.config.db is not None,
                 "artifacts_dir": str(c.artifacts_dir) if c.artifacts_dir is not None else None,
                 "handlers_left": len(c.log_file_handlers),
-                "db_left_open": bool(c.db_handler is not None and c.db_handler.connection is not None),
+                # an aiosqlite connection whose stop()/close() was never requested keeps its non-daemon worker thread
+                "db_left_open": bool(
+                    c.db_handler is not None
+                    and c.db_handler.connection is not None
+                    and getattr(c.db_handler.connection, "_running", False)
+                ),
             }
             for c in ST["cmds"]
         ]
@@ -766,7 +824,9 @@ def _judge_records(
             _id, script, config, start, end, end_tz, code, _path = rows[0]
             if end is None or code is None or end_tz is None:
                 v(
-                    f"db.unfinished|family={'scanner' if cmd in ('scanner', 'uds') else 'plain'}|dbcalls={calls}{sfx}",
+                    f"db.unfinished|family={'scanner' if cmd in ('scanner', 'uds') else 'plain'}|dbcalls={calls}"
+                    + (f"|at={case['point']}" if M.PHASE[case["point"]] != "run" else "")
+                    + sfx,
                     f"{who}run_meta row left with end_time={end!r} exit_code={code!r} (process status {proc}); DBHandler calls: {calls}",
                 )
             else:
@@ -831,7 +891,8 @@ def judge(case: dict[str, Any], d: Path, obs: dict[str, Any], f: dict[str, Any])
     fate = obs["fate"] + (f"@{obs['raise_site']}" if obs["fate"].startswith("raise:") and obs["fate"] not in ("raise:SystemExit", "raise:KeyboardInterrupt") else "")
     where = case_label(case)
     proc = obs["proc_code"]
-    ctx = f"exit={kc}|phase={ph}"
+    # outside run() the call site inside gallia differs from point to point: it is part of the signature
+    ctx = f"exit={kc}|phase={ph}" + (f"|at={point}" if ph != "run" else "")
 
     def v(sig: str, msg: str) -> None:
         out.append((f"C15|{sig}", _stable(f"{msg} [{where}; entry_point outcome {fate}{' ' + obs.get('raise_text', '') if 'raise_text' in obs else ''}]", d)))
@@ -851,8 +912,7 @@ def judge(case: dict[str, Any], d: Path, obs: dict[str, Any], f: dict[str, Any])
 
     # --- did the planned exit happen where planned ------------------------------------------
     if kind != "normal" and not obs["fired"]:
-        if not (kind == "dbfault" and point == "db-close"):
-            v(f"stage-not-reached|{point}", f"lifecycle stage {point} was never executed (stages seen: {obs['reached']})")
+        v(f"stage-not-reached|{point}", f"lifecycle stage {point} was never executed (stages seen: {obs['reached']})")
         return out
 
     # --- setup/main/teardown sequencing: once main was entered, teardown runs --------------------
